@@ -1,1 +1,50 @@
-From Verif Require Import Model.Store.
+(* Props/C14.v — hybrid cache never serves a stale, deleted or expired value from either tier *)
+From Coq Require Import ZArith List Bool.
+From Verif Require Import Base.Word64 Model.Expiry Model.Store Proof.StoreMap Proof.HybridP.
+Import ListNotations.
+Open Scope Z_scope.
+
+(* invariant: memory refines the last-write map [L] (C01) AND the secondary cache holds, for
+   every key, nothing but [L]'s current value of that key.  It holds initially and along every
+   history of hybrid operations: Set / SetWithTTL (which invalidates the secondary copy), Get with
+   promotion, Delete on both tiers, loading Get, event delivery in any order, ticks, evictions
+   handed to the worker, worker steps whose secondary Set succeeds or FAILS *)
+Theorem c14_init : forall c wc pc now,
+  HInv (set_hyb (newStore c wc pc now) true) [] /\ hyb (set_hyb (newStore c wc pc now) true) = true.
+Proof. exact hinit. Qed.
+Print Assumptions c14_init.
+
+Theorem c14_invariant : forall ops s L, hyb s = true -> forallb hop_ok ops = true -> HInv s L ->
+  HInv (fst (hrun s L ops)) (snd (hrun s L ops)).
+Proof. exact hrun_HInv. Qed.
+Print Assumptions c14_invariant.
+
+(* a Get that yields a value — answered from memory or from the secondary tier — yields the value
+   of the last completed Set of that key; after a completed Delete the spec has no value, so it misses *)
+Theorem c14_get_fresh : forall s L k now h dk, HInv s L -> hyb s = true ->
+  HInv (fst (hget s k now h (negb (dk =? 0)))) (hspec_step s L (HGet k now h dk)) /\
+  (forall v, snd (hget s k now h (negb (dk =? 0))) = [1; v] -> map_get L k = Some v).
+Proof. exact hget_HInv. Qed.
+Print Assumptions c14_get_fresh.
+
+Theorem c14_loading_get_fresh : forall s L k now a0 h err v cost ttl dk, HInv s L -> hyb s = true ->
+  HInv (fst (hload s k now a0 h (negb (err =? 0)) v cost ttl (negb (dk =? 0)))) (hspec_step s L (HLoad k now a0 h err v cost ttl dk)) /\
+  (forall v', snd (hload s k now a0 h (negb (err =? 0)) v cost ttl (negb (dk =? 0))) = [1; v'] -> map_get L k = Some v').
+Proof. exact hload_HInv. Qed.
+Print Assumptions c14_loading_get_fresh.
+
+Theorem c14_deleted_stays_deleted : forall s L k h, HInv s L -> HInv (hdelete s k h) (hspec_step s L (HDel k h)).
+Proof. exact hdelete_HInv. Qed.
+Print Assumptions c14_deleted_stays_deleted.
+
+(* the former stale read: promote, overwrite, evict with a FAILING write-back, read again *)
+Example c14_former_stale_read :
+  let s0 := sec_put (set_hyb (newStore 1 1 0 1) true) 5 50 1 0 in            (* key 5 = 50 lives in the secondary tier *)
+  let s1 := fst (hget s0 5 2 555 true) in                                     (* promoted *)
+  let s2 := fst (sset s1 5 51 1 0 3 555 true) in                              (* overwritten in memory *)
+  let s3 := fst (sink_nth s2 0 4 0 0) in let s4 := fst (sink_nth s3 0 4 0 0) in
+  let s5 := fst (sset s4 6 60 1 0 5 666 true) in                              (* pushes key 5 out *)
+  let s6 := fst (sink_nth s5 0 6 0 0) in
+  let s7 := worker_step s6 false in                                           (* write-back fails *)
+  snd (hget s2 5 4 555 true) = [1; 51] /\ snd (hget s7 5 7 555 true) = [0; 0] /\ sec_get s7 5 = None.
+Proof. vm_compute. repeat split. Qed.
